@@ -1,6 +1,9 @@
 """Real-code adapter for the `store` stream (C10): saves sets of signatures to real files under
 <build>/tmp/<case> with the public savers of the sourmash package assembled from /repo's working tree,
 reloads them with the public loaders, and prints one canonical observation per op line."""
+import contextlib
+import io
+import json
 import os
 import re
 import shutil
@@ -87,12 +90,24 @@ class State:
         self.path = None
         self.dir = None
         self.n = 0
+        self.slots = {}
+        self.cwd = None
 
     def reset(self):
         self.cleanup()
         self.sigs = {}
         self.kind = None
         self.path = None
+        self.slots = {}
+        self.cwd = None
+
+    def workspace(self):
+        """the command-line workspace of this case: <dir>/a/b<slot>/..., <dir>/mf/, <dir>/out/, <dir>/else/"""
+        if not self.dir or not os.path.isdir(os.path.join(self.dir, "else")):
+            self.fresh()
+            for sub in ("a", "mf", "out", "else"):
+                os.makedirs(os.path.join(self.dir, sub))
+        return self.dir
 
     def cleanup(self):
         if self.dir and os.path.isdir(self.dir):
@@ -102,6 +117,8 @@ class State:
     def fresh(self):
         """a fresh directory for a new collection"""
         self.cleanup()
+        self.cwd = None
+        self.slots = {}
         os.makedirs(TMPROOT, exist_ok=True)
         self.dir = tempfile.mkdtemp(prefix="c10_", dir=TMPROOT)
         return self.dir
@@ -133,8 +150,54 @@ def row_fields(row, loc):
         un_fnm(row["filename"])))
 
 
+@contextlib.contextmanager
+def in_dir(d):
+    old = os.getcwd()
+    try:
+        if d:
+            os.chdir(d)
+        yield
+    finally:
+        os.chdir(old)
+
+
 def generic(S):
-    return sourmash.load_file_as_index(S.path)
+    with in_dir(S.cwd):
+        return sourmash.load_file_as_index(S.path)
+
+
+def cli(argv, cwd):
+    """run `sourmash <argv>` in-process from directory cwd -> (return code, stdout)"""
+    from sourmash.__main__ import main as sourmash_main
+    out, err = io.StringIO(), io.StringIO()
+    rc = 0
+    with in_dir(cwd), contextlib.redirect_stdout(out), contextlib.redirect_stderr(err):
+        try:
+            sourmash_main(argv)
+        except SystemExit as e:
+            rc = e.code
+        finally:
+            set_quiet(True)
+    return (0 if rc is None else rc), out.getvalue()
+
+
+SLOT_EXT = {"zip": "c.zip", "dir": "cdir/", "sig": "c.sig", "siggz": "c.sig.gz", "sqldb": "c.sqldb"}
+SLOT_KIND = {"zip": "zip", "dir": "dir", "sig": "sigfile", "siggz": "sigfile", "sqldb": "sqldb"}
+
+
+def slot_rel(S, k):
+    return S.slots[k][1]
+
+
+def slot_of_location(S, iloc, mfdir):
+    """which workspace slot a manifest's internal_location names (resolved like StandaloneManifestIndex does)"""
+    cands = [iloc] if iloc.startswith("/") else [os.path.join(mfdir, iloc), os.path.join(S.dir, iloc)]
+    for p in cands:
+        p = os.path.realpath(p)
+        for k, (_, rel) in S.slots.items():
+            if os.path.realpath(os.path.join(S.dir, rel)) == p:
+                return f"o{k}"
+    return "?" + iloc
 
 
 def build_standalone(S, fmt="csv"):
@@ -156,9 +219,10 @@ def build_standalone(S, fmt="csv"):
 def load_how(S, how):
     if how == "generic":
         idx = generic(S)
-        sigs = list(idx.signatures())
-        # the other generic entry point must agree
-        other = list(sourmash_args.load_file_as_signatures(S.path))
+        with in_dir(S.cwd):
+            sigs = list(idx.signatures())
+            # the other generic entry point must agree
+            other = list(sourmash_args.load_file_as_signatures(S.path))
         if sorted(show_sig(x) for x in other) != sorted(show_sig(x) for x in sigs):
             return None, "MISMATCH load_file_as_signatures"
         return sigs, None
@@ -339,6 +403,122 @@ def main():
                         refused.append(f"0.{j}:{exc_name(e)}")
                 db.save(S.path)
                 res = "ok refused=" + ",".join(refused)
+            elif op == "mk":
+                k, fmt, sess = int(a[0]), a[1], parse_sessions(a[2])
+                if any(i not in S.sigs for x in sess for i in x):
+                    res = "bad-op"
+                else:
+                    ws = S.workspace()
+                    rel = f"a/b{k}/" + SLOT_EXT[fmt]
+                    os.makedirs(os.path.join(ws, f"a/b{k}"), exist_ok=True)
+                    S.slots[k] = (SLOT_KIND[fmt], rel.rstrip("/"))
+                    res = run_sessions(S, os.path.join(ws, rel), sess)
+                    if fmt == "dir" and not os.path.isdir(os.path.join(ws, rel)):
+                        os.mkdir(os.path.join(ws, rel))
+            elif op in ("cat", "split", "collect", "sigmanifest", "fileinfo") and any(
+                    int(x) not in S.slots for x in (a[-1] if op in ("cat", "split", "collect") else a[0]).split(",")):
+                res = "bad-op"
+            elif op == "cat":
+                S.kind = None
+                outfmt, unique, fromfile = a[0], a[1] == "1", a[2] == "1"
+                ks = [int(x) for x in a[3].split(",")]
+                ws = S.workspace()
+                shutil.rmtree(os.path.join(ws, "out"), ignore_errors=True)
+                os.makedirs(os.path.join(ws, "out"))
+                paths = [slot_rel(S, k) for k in ks]
+                argv = ["sig", "cat"]
+                if fromfile and len(paths) >= 2:
+                    # load_pathlist_from_file returns a SET: only one listed path keeps the order defined
+                    with open(os.path.join(ws, "out", "list.txt"), "w") as f:
+                        f.write(paths[-1] + "\n")
+                    argv += paths[:-1] + ["--from-file", "out/list.txt"]
+                else:
+                    argv += paths
+                out_rel = "out/" + SLOT_EXT[outfmt]
+                argv += ["-o", out_rel] + (["--unique"] if unique else [])
+                rc, _ = cli(argv, ws)
+                if rc != 0:
+                    S.kind = None
+                    res = f"err SystemExit"
+                else:
+                    S.kind, S.path, S.cwd = SLOT_KIND[outfmt], os.path.join(ws, out_rel).rstrip("/"), None
+                    res = "ok refused="
+            elif op == "split":
+                S.kind = None
+                ks = [int(x) for x in a[0].split(",")]
+                ws = S.workspace()
+                shutil.rmtree(os.path.join(ws, "out"), ignore_errors=True)
+                rc, _ = cli(["sig", "split"] + [slot_rel(S, k) for k in ks] + ["--output-dir", "out"], ws)
+                if rc != 0:
+                    S.kind = None
+                    res = "err SystemExit"
+                else:
+                    S.kind, S.path, S.cwd = "split", os.path.join(ws, "out"), None
+                    res = "ok refused="
+            elif op == "collect":
+                S.kind = None
+                fmt, mode = a[0], a[1]
+                ks = [int(x) for x in a[2].split(",")]
+                ws = S.workspace()
+                name = "m.csv" if fmt == "csv" else "m.sqlmf"
+                out_rel = name if mode == "cwd" else "mf/" + name
+                if os.path.exists(os.path.join(ws, out_rel)):
+                    os.unlink(os.path.join(ws, out_rel))
+                argv = ["sig", "collect"] + [slot_rel(S, k) for k in ks] + ["-o", out_rel, "-F", fmt]
+                argv += {"abs": ["--abspath"], "rel": ["--relpath"]}.get(mode, [])
+                rc, _ = cli(argv, ws)
+                if rc != 0:
+                    S.kind = None
+                    res = "err SystemExit"
+                else:
+                    # the manifest is loaded by its absolute path from an unrelated working directory
+                    S.kind, S.path, S.cwd = "mf", os.path.join(ws, out_rel), os.path.join(ws, "else")
+                    res = "ok refused="
+            elif op == "sigmanifest":
+                k, rebuild, fmt = int(a[0]), a[1] == "1", a[2]
+                ws = S.workspace()
+                out_rel = "mf/sm.csv" if fmt == "csv" else "mf/sm.sqlmf"
+                if os.path.exists(os.path.join(ws, out_rel)):
+                    os.unlink(os.path.join(ws, out_rel))
+                argv = ["sig", "manifest", slot_rel(S, k), "-o", out_rel, "-F", fmt]
+                argv += [] if rebuild else ["--no-rebuild-manifest"]
+                rc, _ = cli(argv, ws)
+                if rc != 0:
+                    res = "err SystemExit"
+                else:
+                    mf = CollectionManifest.load_from_filename(os.path.join(ws, out_rel))
+                    res = "ok~ " + ";".join(row_fields(r, show_member(r["internal_location"])) for r in mf.rows)
+            elif op == "fileinfo":
+                k = int(a[0])
+                ws = S.workspace()
+                rc, text = cli(["sig", "fileinfo", slot_rel(S, k), "--json-out"], ws)
+                if rc != 0:
+                    res = "err SystemExit"
+                else:
+                    d = json.loads(text)
+                    items = [f"n={d['num_sketches']}", f"total={d['total_hashes']}"]
+                    for g in d["sketch_info"]:
+                        items.append(f"g:{g['ksize']}/{MOLS.index(g['moltype'])}/{g['scaled']}/{g['num']}/"
+                                     f"{int(bool(g['abund']))}/{g['count']}/{g['n_hashes']}")
+                    res = "ok~ " + ";".join(items)
+            elif op == "load" and a[0] == "partial":
+                if S.kind not in ("zip", "sigfile", "sqldb"):
+                    res = "ok -"
+                else:
+                    idx = generic(S)
+                    rows = [dict(r) for r in sourmash_args.get_manifest(idx).rows]
+                    want = [int(x) for x in a[1].split(",")] if a[1] != "-" else []
+                    sel = []
+                    for i in (want if rows else []):
+                        r = dict(rows[i % len(rows)])
+                        r["internal_location"] = S.path
+                        sel.append(r)
+                    out_mf = os.path.join(S.dir, "partial.mf.csv")
+                    if os.path.exists(out_mf):
+                        os.unlink(out_mf)
+                    CollectionManifest(sel).write_to_filename(out_mf)
+                    pidx = sourmash.load_file_as_index(out_mf)
+                    res = "ok " + ";".join([f"len={len(pidx)}"] + [show_sig(x) for x in pidx.signatures()])
             elif op in ("members", "manifest", "locs", "load", "len", "rebuild") and S.kind is None:
                 res = "ok -"
             elif op == "members":
@@ -364,6 +544,11 @@ def main():
                     res = "ok~ " + ";".join(row_fields(r, "*") for r in m.rows)
                 elif S.kind == "dir":
                     res = "ok~ " + ";".join(row_fields(r, show_member(r["internal_location"])) for r in m.rows)
+                elif S.kind == "split":
+                    res = "ok~ " + ";".join(row_fields(r, "*") for r in m.rows)
+                elif S.kind == "mf":
+                    res = "ok~ " + ";".join(row_fields(r, slot_of_location(S, r["internal_location"], os.path.dirname(S.path)))
+                                            for r in m.rows)
                 elif S.kind == "sigfile":
                     res = "ok " + ";".join(row_fields(r, "o0" if r["internal_location"] == S.path else "?" + str(r["internal_location"])) for r in m.rows)
                 else:
@@ -385,7 +570,7 @@ def main():
                 sigs, bad = load_how(S, a[0])
                 if bad:
                     res = bad
-                elif S.kind in ("zip", "sigfile", "sqldb"):
+                elif S.kind in ("zip", "sigfile", "sqldb") :
                     res = "ok " + ";".join(show_sig(x) for x in sigs)
                 else:
                     res = "ok~ " + ";".join(show_sig(x) for x in sigs)
